@@ -455,10 +455,12 @@ class LDMService:
         """
         with self._lock:
             subscriptions = self.subscriptions.copy()
-        to_remove = set()
+        # A list, not a set: two subscriptions made with an identical request (and callback) compare equal,
+        # share the identifier, and both have to go.
+        to_remove = []
         for subscription in subscriptions:
             if hash(subscription.subscription_request) == subscription_id:
-                to_remove.add(subscription)
+                to_remove.append(subscription)
         for subscription in to_remove:
             self.remove_subscription(subscription)
         return bool(to_remove)
